@@ -282,9 +282,14 @@ def runs(repo, name):
     except Stuck as ex:
         ff.data["ascon_backend_free"] = {"error": str(ex)}
     ff.write()
+    free_err = ff.data["ascon_backend_free"].get("error") or ("ascon_backend_free accesses memory" if ff.data["ascon_backend_free"].get("memory_accesses") else None)
 
     def one(k):
         t0 = time.time()
+        if free_err:
+            # the file's other function breaks the ABI: no obligation of this file is emitted (C18: "matches ... the ABI")
+            ff.fail(k, "ascon_backend_free: " + free_err)
+            raise Stuck("ascon_backend_free in the same file: " + free_err)
         make = make_for("ascon_permute", {"a0": ("ptr", "state", 0), "a1": ("int", k)})
         try:
             probe = make("trace", None, ())
